@@ -3,4 +3,5 @@
 patch="$1"; shift
 git -C /repo apply "$patch" || { echo "patch does not apply"; exit 2; }
 trap 'git -C /repo checkout -- . ; git -C /repo clean -fdq' EXIT
+export VERIF_EVIDENCE_DIR=/verif/build/evidence-under-patch
 for p in "$@"; do /verif/check "$p" --tier quick 2>&1 | grep -v "^WARNING conda" | tail -${TAIL:-8}; echo "exit=$?"; done
